@@ -2366,4 +2366,5 @@ REVERT("revert-no-input-bits", "C05", "fire S16", "9c49737", "pre-fix tree: circ
 M("s16-quiet-any-form", "C05", "quiet", "src/compile.rs",
   """        if input_gates.iter().all(|bits| *bits == 0) {""",
   """        if !input_gates.iter().any(|bits| *bits > 0) {""", "behaviour-preserving: the same test written with any()")
+REVERT("revert-output-registers-written", "C16", "fire G2", "b30cfcc", "pre-fix tree: output registers only bounds-checked")
 
